@@ -51,6 +51,15 @@ def context_neighbors(model, R):
             'algorithms.neighbors(objects, Objects=self._Objects)', src(r[0]) if r else '')
     # label form derives from the same generator
     fenv = Env(f)
+    for ret in [n for n in walk(f.body) if isinstance(n, ast.Return) and n.value is not None]:
+        names_ = {n.attr for n in ast.walk(ret.value) if isinstance(n, ast.Attribute)} | {n.id for n in ast.walk(ret.value) if isinstance(n, ast.Name)}
+        via_lattice = [n for n in walk(f.body) if isinstance(n, ast.Subscript) and chain(n.value) == ['self', 'lattice']]
+        if via_lattice and ('upper_neighbors' in names_ or 'lower_neighbors' in names_):
+            R.bad('LINKS', f, ret, 'Context.neighbors: covers computed for the closure of exactly the given objects', 'list(self._neighbors(closure))',
+                  f'taken from the lattice lookup {src(via_lattice[0])[:50]}',
+                  extra={'consequence': 'Lattice.__getitem__ maps the empty key to the top concept and reads labels objects-first: the empty object set '
+                                        '(and property-named keys) get the covers of another concept'})
+            break
 
     def over_neighbors(it):
         it = fenv.expand(it) if isinstance(it, ast.Name) else it
@@ -79,4 +88,5 @@ def run(model, R):
     # every derivation goes through the closures that Vectors._pair_with builds (C01's rules for them are a dependency)
     from . import c01
     R.guard('WIRING', None, '_pair_with closures', c01.closure_rules, model, R)
+    R.guard('WIRING', None, 'Relation.__new__', c01.relation_new, model, R)
     return __doc__.strip()
